@@ -21,10 +21,10 @@ propagator treats as booleans; the contract holds on stores where those have dom
 
 Kinds added later (mul, div, modulo, allEqual, between, count, cardinality, element, table,
 if-then-else, allDiff): `PK.WFs` is the *static* well-formedness of every kind, `PK.StoreOk` the additional
-*store* precondition of `div` (divisor range excludes 0) and `modulo` (non-negative dividend,
-positive divisor, no boundary sampling); `PK.contract_inv` is the general contract theorem under a
+*store* precondition of `modulo` (non-negative dividend, positive divisor, no boundary sampling;
+`div` needs none since the repair `fix: Div/Modulo fail when the divisor is fixed to zero`); `PK.contract_inv` is the general contract theorem under a
 store invariant implying both, `StoreInv`/`closed_storeInv`/`allContract_inv` package it for the
-engine theorems.  `PK.WFk`/`PK.contract_all` keep their signature: for `div`/`modulo` `WFk` asks the
+engine theorems.  `PK.WFk`/`PK.contract_all` keep their signature: for `modulo` `WFk` asks the
 store precondition for *every* store (i.e. constant operands).
 -/
 namespace Selen
@@ -54,17 +54,16 @@ def PK.WFs : PK → Prop
   | .linLeReif cs xs _ _ => cs.length = xs.length ∧ ∃ i, i < xs.length ∧ cs.getD i 0 ≠ 0
   | .linNeReif cs xs _ _ => cs.length = xs.length ∧ ∃ i, i < xs.length ∧ cs.getD i 0 ≠ 0
   | .abs x _ => x.WF
-  | .mul x y _ => x.WF ∧ y.WF ∧ x.NoStep ∧ y.NoStep
-  | .div x y _ => x.WF ∧ y.WF ∧ y.NoStep
+  | .mul x y _ => x.WF ∧ y.WF
+  | .div x y _ => x.WF ∧ y.WF
   | .modulo x y _ => x.WF ∧ y.WF
-  | .allEqual xs => xs ≠ []
+  | .allEqual _ => True
   | .count _ t _ => t.WF
   | .table xs ts => ∀ t ∈ ts, t.length = xs.length
   | _ => True
 
 /-- store precondition of a kind (beyond boolean domains) -/
 def PK.StoreOk : PK → Store → Prop
-  | .div _ y _ => KMulDiv.DivOk y
   | .modulo x y _ => KModulo.ModOk x y
   | _ => fun _ => True
 
@@ -81,10 +80,10 @@ def PK.WFk : PK → Prop
   | .linLeReif cs xs _ _ => cs.length = xs.length ∧ ∃ i, i < xs.length ∧ cs.getD i 0 ≠ 0
   | .linNeReif cs xs _ _ => cs.length = xs.length ∧ ∃ i, i < xs.length ∧ cs.getD i 0 ≠ 0
   | .abs x _ => x.WF
-  | .mul x y _ => x.WF ∧ y.WF ∧ x.NoStep ∧ y.NoStep
-  | .div x y _ => (x.WF ∧ y.WF ∧ y.NoStep) ∧ ∀ st, KMulDiv.DivOk y st
+  | .mul x y _ => x.WF ∧ y.WF
+  | .div x y _ => x.WF ∧ y.WF
   | .modulo x y _ => (x.WF ∧ y.WF) ∧ ∀ st, KModulo.ModOk x y st
-  | .allEqual xs => xs ≠ []
+  | .allEqual _ => True
   | .count _ t _ => t.WF
   | .table xs ts => ∀ t ∈ ts, t.length = xs.length
   | _ => True
@@ -179,19 +178,15 @@ theorem PK.contract_inv (k : PK) (hwf : k.WFs) (P : Store → Prop)
   | max xs r => exact pkContract_of_contract' P (KAbsMinMax.PK.contract_max xs r)
   | noop => exact pkContract_noop P
   | mul x y s =>
-    exact pkContract_of_contract' P (KMulDiv.PK.contract_mul x y s hwf.1 hwf.2.1 hwf.2.2.1 hwf.2.2.2)
-  | div x y s =>
-    exact ⟨fun c a _ hm hs => KMulDiv.PK.sound_div x y s hwf.1 hwf.2.1 hwf.2.2 c a hm hs,
-           KMulDiv.PK.contracting_div x y s hwf.2.2,
-           fun c c' a hp hf hm e => KMulDiv.PK.checking_div x y s c c' a (hS _ hp) hf hm e,
-           KMulDiv.PK.resp_div x y s hwf.2.2⟩
+    exact pkContract_of_contract' P (KMulDiv.PK.contract_mul x y s hwf.1 hwf.2)
+  | div x y s => exact pkContract_of_contract' P (KMulDiv.PK.contract_div x y s hwf.1 hwf.2)
   | modulo x y s =>
     exact ⟨fun c a hp hm hs => KModulo.PK.sound_modulo x y s hwf.1 hwf.2 c a (hS _ hp) hm hs,
            KModulo.PK.contracting_modulo x y s,
            fun c c' a hp hf hm e => KModulo.PK.checking_modulo x y s hwf.1 hwf.2 c c' a
               (KModulo.modOk_nonzero (hS _ hp)) hf hm e,
            KModulo.PK.resp_modulo x y s⟩
-  | allEqual xs => exact pkContract_of_contract' P (KSimple.PK.contract_allEqual xs hwf)
+  | allEqual xs => exact pkContract_of_contract' P (KSimple.PK.contract_allEqual xs)
   | between l m u => exact pkContract_of_contract' P (KSimple.PK.contract_between l m u)
   | count xs t c => exact pkContract_of_contract' P (KCountCard.PK.contract_count xs t c hwf)
   | card ty xs tv n => exact pkContract_of_contract' P (KCountCard.PK.contract_card ty xs tv n)
@@ -214,7 +209,6 @@ def StoreInv (ps : List PK) (st : Store) : Prop :=
 theorem PK.storeOk_good (k : PK) (hwf : k.WFs) {T : List Nat} {c c' : Ctx} (g : Good T c c')
     (hne : NonEmpty c.st) (h : k.StoreOk c.st) : k.StoreOk c'.st := by
   cases k with
-  | div x y s => exact KMulDiv.divOk_good y hwf.2.1 g hne h
   | modulo x y s => exact KModulo.PK.modOk_good x y hwf.1 hwf.2 g hne h
   | _ => trivial
 
@@ -247,7 +241,7 @@ example :
   refine ⟨?_, ?_, ?_, ?_⟩
   · intro k hk
     simp only [List.mem_cons, List.not_mem_nil, or_false] at hk
-    rcases hk with rfl | rfl <;> simp [PK.WFs, IView.WF, IView.NoStep]
+    rcases hk with rfl | rfl <;> simp [PK.WFs, IView.WF]
   · intro i
     match i with
     | 0 => simp
@@ -258,7 +252,7 @@ example :
   · intro k hk
     simp only [List.mem_cons, List.not_mem_nil, or_false] at hk
     rcases hk with rfl | rfl
-    · show KMulDiv.DivOk _ _; unfold KMulDiv.DivOk; decide
+    · trivial
     · show KModulo.ModOk _ _ _; unfold KModulo.ModOk; decide
 
 end Selen
